@@ -44,7 +44,7 @@ func c09Pool(chain *vh.Chain) []*vh.Header {
 	}
 }
 
-var c09Kinds = []string{"header", "header", "header", "header", "header", "header_case", bhNotFound, bhGarbage, bhBadValidate, bhWrongChain, bhNoChain, bhHang, bhReset, bhEmpty, bhUnknownCode}
+var c09Kinds = []string{"header", "header", "header", "header", "header", "header_case", bhNotFound, bhGarbage, bhBadValidate, bhWrongChain, bhNoChain, bhHang, bhReset, bhEmpty, bhUnknownCode, bhUnknownBody}
 
 func genC09(t *rapid.T) C09Scenario {
 	s := C09Scenario{Trusted: rapid.Bool().Draw(t, "trusted"), Deadline: rapid.Bool().Draw(t, "deadline"),
